@@ -76,7 +76,8 @@ SPEC_FILES = ["CactusRef.tla", "MC.tla"]
 
 def mc_cfg(nobj, ops, caps, variant, menu, invs, emit=0, simlen=0, view=True, constraint=None, extra=""):
     s = "CONSTANTS\n  NObj = %d\n  Ops <- %s\n  Caps <- %s\n  Variant <- %s\n  DtorMenu <- %s\n" % (nobj, ops, caps, variant, menu)
-    s += "  EmitCover = %d\n  SimLen = %d\n" % (emit, simlen)
+    s += "  EmitCover = %d\n  SimLen = %d\n  EmitOut = %d\n" % (emit, simlen, 1 if "EMITOUT" in extra else 0)
+    extra = extra.replace("EMITOUT", "")
     s += "INIT MCInit\nNEXT MCNext\nCHECK_DEADLOCK FALSE\n"
     if view:
         s += "VIEW View\n"
@@ -120,7 +121,10 @@ def tlc_exhaustive(name, cfgtext, timeout, workers=8, use_cache=True):
         st["cached"] = True
         st["cex"] = extract_scripts(outp, "CEX")
         st["aborts"] = [js for _, js in extract_scripts(outp, "ABORT")]
-        st["wall_s"] = json.load(open(os.path.join(cdir, "done")))["wall_s"]
+        dn = json.load(open(os.path.join(cdir, "done")))
+        st["wall_s"] = dn["wall_s"]
+        if "order_pass" in dn:
+            st["order_pass"] = dn["order_pass"]
         return st
     os.makedirs(cdir, exist_ok=True)
     cfgp = os.path.join(SPEC, "_gen_%s_%s.cfg" % (name, key))
@@ -142,8 +146,17 @@ def tlc_exhaustive(name, cfgtext, timeout, workers=8, use_cache=True):
     st["aborts"] = [js for _, js in extract_scripts(outp, "ABORT")]
     if not st.get("completed") and not st["cex"]:
         raise ToolError("TLC did not complete on %s: %s (see %s)" % (name, st.get("errors"), outp))
+    dn = {"wall_s": dt}
+    if "EmitOut = 1" in cfgtext:
+        import order_pass
+        st["order_pass"] = order_pass.analyse(outp)
+        dn["order_pass"] = st["order_pass"]
+        # the OUT lines are bulky: keep only what later runs need
+        keep = [l for l in open(outp, errors="replace") if not l.startswith('<<"OUT"')]
+        with open(outp, "w") as f:
+            f.writelines(keep)
     with open(os.path.join(cdir, "done"), "w") as f:
-        json.dump({"wall_s": dt}, f)
+        json.dump(dn, f)
     return st
 
 
@@ -296,7 +309,7 @@ def script_of_line(trace, line):
 
 FAMILIES = {
     "core": dict(ops="OpsCore", menu="MenuPlain", profile="core",
-                 invs=["TypeOK", "MC_C01", "MC_C02", "MC_C03", "MC_C04", "MC_C06", "MC_C08", "MC_C14"],
+                 invs=["TypeOK", "MC_C01", "MC_C02", "MC_C03", "MC_C04", "MC_C06", "MC_C08", "MC_C14", "MC_C15"],
                  quick=dict(mc=[dict(nobj=2, caps="Caps2")],
                             sim=[dict(nobj=2, caps="Caps2", num=500, simlen=25), dict(nobj=3, caps="Caps3", num=500, simlen=30)]),
                  thorough=dict(mc=[dict(nobj=2, caps="CapsL"), dict(nobj=3, caps="CapsT")],
@@ -353,6 +366,15 @@ FAMILIES["elide"] = dict(
     thorough=dict(mc=[dict(nobj=2, caps="CapsE3"), dict(nobj=3, caps="CapsE", ops="OpsCoreQ")],
                   sim=[dict(nobj=3, caps="CapsE3", num=6000, simlen=40), dict(nobj=4, caps="CapsE", num=4000, simlen=50)]))
 
+FAMILIES["order"] = dict(
+    ops="OpsOrder", menu="MenuPlain", profile="order", emit_out=True,
+    invs=["MC_C01", "MC_C03"],
+    quick=dict(mc=[dict(nobj=2, caps="CapsO")],
+               sim=[dict(nobj=3, caps="Caps3", num=300, simlen=30), dict(nobj=4, caps="Caps3", num=300, simlen=40)]),
+    thorough=dict(mc=[dict(nobj=2, caps="CapsL"), dict(nobj=3, caps="CapsO3")],
+                  sim=[dict(nobj=3, caps="Caps3", num=2000, simlen=40), dict(nobj=4, caps="Caps3", num=2000, simlen=50),
+                       dict(nobj=5, caps="Caps3", num=1000, simlen=60)]))
+
 TIERS = {
     "quick": dict(drive=dict(scripts=240, length=60, nobj=5), chunks=6, mc_timeout=900),
     "thorough": dict(drive=dict(scripts=4000, length=150, nobj=7), chunks=14, mc_timeout=7200),
@@ -366,11 +388,13 @@ PROPS = {
     "C05": dict(fams=["weak", "dtor05", "consume"], monitor=["C05"], level="model_checking"),
     "C06": dict(fams=["core", "stale"], monitor=["C06"], level="model_checking"),
     "C08": dict(fams=["core", "stale"], monitor=["C08"], level="model_checking"),
+    "C09": dict(fams=["order"], monitor=["C09"], layouts=dict(quick=4, thorough=16), level="model_checking"),
     "C10": dict(fams=["dtor10"], monitor=["C10"], level="model_checking"),
     "C11": dict(fams=["panic"], monitor=["C11"], level="model_checking"),
     "C12": dict(fams=["consume"], monitor=["C12"], level="model_checking"),
     "C13": dict(fams=["elide", "stale"], monitor=["C13x", "C13"], known_prop="C13", level="model_checking"),
     "C14": dict(fams=["core"], monitor=["C14"], level="model_checking"),
+    "C15": dict(fams=["core"], monitor=["C15"], scale=True, level="model_checking"),
     "C16": dict(fams=["dtor16"], monitor=["C16"], child=True, level="model_checking"),
 }
 
@@ -404,6 +428,7 @@ def run_check(prop, tier, seed, replay):
     script_files = []   # (label, path, nobj)
     spec_stats = []
     drive_traces = []
+    drive_crashes = []
     if replay:
         script_files.append(("replay", os.path.abspath(replay), max_obj(replay)))
     else:
@@ -414,8 +439,18 @@ def run_check(prop, tier, seed, replay):
             for i, c in enumerate(FT["mc"]):
                 ops = c.get("ops", F["ops"])
                 menu = c.get("menu", F["menu"])
-                cfg = mc_cfg(c["nobj"], ops, c["caps"], VARIANT, menu, F["invs"])
+                cfg = mc_cfg(c["nobj"], ops, c["caps"], VARIANT, menu, F["invs"], extra="EMITOUT" if F.get("emit_out") else "")
                 st = tlc_exhaustive("%s_%s_%d" % (fam, tier, i), cfg, T["mc_timeout"], workers=min(12, NCPU))
+                if F.get("emit_out"):
+                    op_ = st.get("order_pass")
+                    log("spec: order pass: %d call sequences, %d with more than one outcome, %d destroy a group of >= 2" % (
+                        op_["call_sequences"], op_["nondeterministic"], op_["sequences_destroying_a_group_of_2_or_more"]))
+                    if op_["nondeterministic"]:
+                        pth = os.path.join(wd, "orderwit_%s_%d.ndjson" % (fam, i))
+                        with open(pth, "w") as f:
+                            for js in op_["witnesses"]:
+                                f.write(js + "\n")
+                        script_files.append(("spec-order-witness", pth, c["nobj"]))
                 st["cfg"] = dict(family=fam, nobj=c["nobj"], caps=c["caps"], ops=ops, menu=menu, variant=VARIANT,
                                  invariants=F["invs"])
                 spec_stats.append(st)
@@ -454,9 +489,16 @@ def run_check(prop, tier, seed, replay):
                 tp = os.path.join(wd, "drive_%s_%d.trace" % (fam, ci))
                 n = max(1, dv["scripts"] // (k * len(P["fams"])))
                 rc, out, dt = harness(binp, ["drive", str(seed * 1000 + ci), str(n), str(dv["length"]),
-                                             str(dv["nobj"]), F["profile"], sp, tp])
+                                             str(dv["nobj"]), F["profile"], sp, tp] + ([str(P["layouts"][tier])] if P.get("layouts") else []))
                 if rc != 0:
-                    raise ToolError("harness crashed in drive mode (rc=%s): %s" % (rc, (out or "")[-500:]))
+                    # killed by a signal, or a Rust panic escaped (exit 101): the library broke the
+                    # process; the history in progress was written to <scripts>.cur before the call
+                    cur = sp + ".cur"
+                    if (rc < 0 or rc == 101) and os.path.exists(cur):
+                        drive_crashes.append(dict(script=open(cur).read().strip(), signal=(-rc if rc < 0 else 101), label="drive-" + fam))
+                        log("the library crashed the harness in drive mode (rc=%s)" % rc)
+                        continue
+                    raise ToolError("harness failed in drive mode (rc=%s): %s" % (rc, (out or "")[-500:]))
                 drive_traces.append(dict(label="drive-" + fam, scripts=sp, trace=tp, nobj=dv["nobj"], n=n))
         # 4. committed witnesses of repaired / known defects
         fdir = os.path.join(VERIF, "findings")
@@ -469,7 +511,8 @@ def run_check(prop, tier, seed, replay):
             script_files.append(("witnesses", pth, 4))
 
     # 5. replay everything on the real code
-    crashes = []
+    extra_viol = []
+    crashes = list(drive_crashes)
     traces = []
     nscripts = 0
     samples = []
@@ -487,7 +530,7 @@ def run_check(prop, tier, seed, replay):
                 f.write("\n".join(part) + "\n")
             tp = os.path.join(wd, "%s_%d.trace" % (label, ci))
             while True:
-                rc, out, dt = harness(binp, ["replay", sp, tp])
+                rc, out, dt = harness(binp, ["replay", sp, tp] + ([str(P["layouts"][tier])] if P.get("layouts") else []))
                 if rc == 0:
                     break
                 if rc > 0:
@@ -595,6 +638,16 @@ def run_check(prop, tier, seed, replay):
             nscripts += len(ctraces)
             log("child mode: %d scripts with a predicted abort re-run with the real call" % len(ctraces))
 
+    # 6c. scale runs (C15): large groups on a small fixed stack, judged by TLC (ScaleCheck.tla)
+    scale_info = None
+    if P.get("scale") and not replay:
+        scale_info = run_scale(binp, wd, tier)
+        for b in scale_info["bad"]:
+            rp = os.path.join(REPLAYS, "%s_scale_%s_%d.json" % (prop, b["shape"], b["n"]))
+            with open(rp, "w") as f:
+                json.dump(b, f)
+            extra_viol.append(dict(replay=rp, script="scale run %s" % json.dumps(b), source="scale"))
+
     # 7. verdict.  A property with a known finding has two monitors: the strict one (its
     # violations are instances of the finding when the finding's cause predicate explains
     # them) and the one with the finding excused (its violations are new).
@@ -630,6 +683,7 @@ def run_check(prop, tier, seed, replay):
             n = sum(len(v) for v in known_hits.values())
             print("KNOWN-FINDING: property=%s %s (%s; %d instance(s) in this run, e.g. %s)" % (
                 prop, k["what"], k.get("site", ""), n, (list(known_hits.values())[0][0][:200] if n else "witness not triggered")))
+    out_viol.extend(extra_viol)
     for c in crashes:
         js = c["script"]
         hsh = hashlib.sha256(js.encode()).hexdigest()[:12]
@@ -656,11 +710,13 @@ def run_check(prop, tier, seed, replay):
             spec_runs=[dict(cfg=s["cfg"], distinct=s.get("distinct"), generated=s.get("generated"), depth=s.get("depth"),
                             cached=s["cached"], tlc_wall_s=round(s["wall_s"], 1),
                             spec_counterexamples=sorted(set(p for p, _ in s["cex"])),
+                            order_pass=s.get("order_pass"),
                             coverage_by_action={k: v[0] for k, v in s.get("coverage", {}).items()})
                        for s in spec_stats],
             drift=len(drift),
             known_finding_instances=sum(len(v) for v in known_hits.values()),
             child_process_runs=nchild,
+            scale_runs=(scale_info or {}).get("runs"),
             library_crashes=len(crashes),
             rule="TLC model-checks each family's configuration exhaustively (all call histories within the caps, all iteration "
                  "orders); TLC-generated call sequences (simulation mode) and random histories are executed on the real library "
@@ -680,6 +736,53 @@ def run_check(prop, tier, seed, replay):
     log("%s %s: %d scripts, %d trace lines judged, %d violations, drift %d, %.0fs" % (
         prop, tier, nscripts, nlines, len(out_viol), len(drift), time.time() - t0))
     return 1 if out_viol else 0
+
+
+SCALE_SHAPES = {
+    "quick": ["ring:1000", "ring:20000", "ring:100000", "ring:300000", "chords:100000", "wheel:20000", "clique:300"],
+    "thorough": ["ring:1000", "ring:20000", "ring:300000", "ring:1000000", "chords:500000", "wheel:20000", "wheel:100000",
+                 "clique:300", "clique:1000"],
+}
+
+
+def run_scale(binp, wd, tier):
+    """Builds large adopted groups with the real library on a 128 KiB stack; TLC evaluates the
+    bounds of ScaleCheck.tla on the logged counters. A run that kills the process (stack
+    overflow) is data: it is recorded as a scale_died line."""
+    outp = os.path.join(wd, "scale.ndjson")
+    lines = []
+    for shape in SCALE_SHAPES[tier]:
+        one = os.path.join(wd, "scale_one.ndjson")
+        rc, out, dt = harness(binp, ["scale", one, "128", shape], timeout=1800)
+        got = [json.loads(l) for l in open(one)] if os.path.exists(one) else []
+        if rc != 0 and not any(g["k"] == "scale" for g in got):
+            shp, n = shape.split(":")
+            got.append(dict(k="scale_died", shape=shp, n=int(n), sig=-rc))
+        lines.extend(got)
+    # per-adoption CPU time relative to the 20000-ring of the same run (x10, integer)
+    base = [g for g in lines if g["k"] == "scale" and g["shape"] == "ring" and g["n"] == 20000]
+    for g in lines:
+        if g["k"] == "scale":
+            if base and base[0]["cpu_us"] > 0 and g["links"] > 0:
+                per = g["cpu_us"] / g["links"]
+                per0 = base[0]["cpu_us"] / base[0]["links"]
+                g["ratio_x10"] = int(10 * per / per0) if g["n"] >= 20000 and g["shape"] in ("wheel", "clique") else 10
+            else:
+                g["ratio_x10"] = 10
+    with open(outp, "w") as f:
+        for g in lines:
+            f.write(json.dumps(g) + "\n")
+    env = {"TRACE": outp, "JAVA_TOOL_OPTIONS": JAVA_OPTS}
+    rc, out, dt = sh(["tlc", "-workers", "1", "-metadir", os.path.join(wd, "scale_meta"), "-cleanup", "-noGenerateSpecTE",
+                      "-config", "ScaleCheck.cfg", "ScaleCheck.tla"], 600, cwd=SPEC, env=env)
+    m = re.search(r'^<<"SCALE-BAD", "(.*)">>$', out, re.M)
+    if not m or "Model checking completed" not in out:
+        raise ToolError("ScaleCheck did not complete: %s" % out[-600:])
+    badidx = json.loads(m.group(1))
+    bad = [lines[i - 1] for i in badidx]
+    runs = [g for g in lines if g["k"] == "scale"]
+    log("scale: %d runs up to N=%d on a 128 KiB stack, %d outside the bounds" % (len(runs), max([g["n"] for g in runs] or [0]), len(bad)))
+    return dict(runs=runs, bad=bad)
 
 
 def max_obj(path):
